@@ -332,6 +332,10 @@ class B:
 def _ite(c, a, b):
     if is_c(a) and is_c(b) and a == b:
         return a
+    if z3.is_true(c):
+        return a
+    if z3.is_false(c):
+        return b
     return z3.If(c, zt(a), zt(b))
 
 
@@ -550,7 +554,19 @@ class Q:
         t = d._signed_num()
         if is_c(t):
             return B(bool(op(t, 0)))
-        return B(op(t, 0))
+        cond = op(t, 0)
+        if CTX.facts:
+            # comparisons decided by the declared facts are resolved (value-level masks of the legacy code become concrete)
+            for want, neg in ((True, z3.Not(cond)), (False, cond)):
+                so = z3.Solver()
+                so.set('timeout', 3000)
+                so.add(CTX.facts)
+                so.add(CTX.den_conds())
+                so.add(CTX.pc)
+                so.add(neg)
+                if so.check() == z3.unsat:
+                    return B(want)
+        return B(cond)
 
     def __gt__(a, b):
         return a._cmp(b, lambda x, y: x > y)
